@@ -110,9 +110,10 @@ func (r *resolver) ident(name string, inConst bool) {
 }
 
 // mayFold over-approximates "the optimizer might replace e by a literal".
-// Only a reference to a script variable that is not a constant, a function
-// literal or an import makes folding impossible (the optimizer's private
-// compiler cannot resolve script variables).
+// Only a COMPILED reference to a script variable that is not a constant, a
+// function literal or an import makes folding impossible (the optimizer's
+// private compiler cannot resolve script variables); the branch of a ?: that
+// is not taken is not compiled there, so it does not count.
 func (r *resolver) mayFold(e gen.Expr) bool {
 	switch e := e.(type) {
 	case nil:
